@@ -153,7 +153,8 @@ Inductive hop :=
                                                hpc_job_ids := ids *)
 | HCompleteHpc (id : N)                     (* complete_hpc_job_id *)
 | HReloadJobs                               (* deserialize_jobs() *)
-| HPrepMutate (v : N)                       (* prepare_for_resubmission, in-memory part *)
+| HPrepMutate (v : N)                       (* prepare_for_resubmission, in-memory part: is_complete := False,
+                                               is_canceled := False, submitted_jobs := v (recounted from the job table) *)
 | HCheckCfgNL | HCheckJsNL                  (* its two up-front version checks, *)
 | HSerializeNL | HSerializeJobsNL.          (* and its two writes, all NOT under the lock *)
 
@@ -206,7 +207,7 @@ Definition act (o : hop) (d : disk) (h : handle) : result * disk * handle :=
   | HCheckJsNL => chk_js d h
   | HPrepMutate v =>
     if c_complete (h_cfg h) then
-      let h1 := h_with_cfg h (cfg_with_submitted (cfg_with_complete (h_cfg h) false) v) in
+      let h1 := h_with_cfg h (cfg_with_submitted (cfg_with_canceled (cfg_with_complete (h_cfg h) false) false) v) in
       match h_js h with
       | None => (RAssertion, d, h1)          (* iter_jobs: assert self._job_status is not None *)
       | Some _ => (ROk, d, h1)
